@@ -7,6 +7,7 @@
  *   mkdir <path> <octal mode>        mkfile <path> <octal mode>       fifo <path>
  *   dgram <path> <fill 0|1>          bound, never read datagram socket; fill=1: queue filled until EAGAIN
  *   devlog <path> <fill 0|1>         same, and connect("/dev/log") is redirected to it (by librecorder)
+ *   stalesock <path> / devlog-stale <path>   a socket file whose owner is gone (connect -> ECONNREFUSED)
  *   stream <path> / devlog-stream <path>   listening STREAM socket with a full accept backlog that nobody accepts from
  *   rmcwd <path>                     mkdir+chdir+rmdir: the working directory no longer exists
  *   flockfile <path>                 create the file and keep an exclusive flock on it through another open file description
@@ -201,6 +202,13 @@ static void handle_line(int nf, char **f) {
     } else if (!strcmp(f[0], "flockfile") && nf >= 2) {  /* the log file exists and ANOTHER open file description holds an exclusive flock on it for the whole run */
         char *p = subst(f[1], strlen(f[1]), NULL); int fd = open(p, O_RDWR | O_CREAT | O_CLOEXEC, 0666);
         if (fd >= 0) { int hi = fcntl(fd, F_DUPFD_CLOEXEC, 190); close(fd); if (flock(hi, LOCK_EX | LOCK_NB)) recf("note\tflock-failed\n"); }
+    } else if ((!strcmp(f[0], "stalesock") || !strcmp(f[0], "devlog-stale")) && nf >= 2) {
+        /* a STALE socket file: it was bound once, its owner is gone (closed without unlink): connect() -> ECONNREFUSED */
+        char *p = subst(f[1], strlen(f[1]), NULL); int fd = socket(AF_UNIX, SOCK_DGRAM | SOCK_CLOEXEC, 0);
+        struct sockaddr_un a; memset(&a, 0, sizeof a); a.sun_family = AF_UNIX; strncpy(a.sun_path, p, sizeof a.sun_path - 1);
+        unlink(p); if (bind(fd, (struct sockaddr *)&a, sizeof a) < 0) { perror("bind-stale"); exit(3); }
+        close(fd);
+        if (!strcmp(f[0], "devlog-stale")) strncpy(verif_expect.devlog_redirect, p, sizeof verif_expect.devlog_redirect - 1);
     } else if (!strcmp(f[0], "stream") && nf >= 2) { char *p = subst(f[1], strlen(f[1]), NULL); bind_stream_full(p);
     } else if (!strcmp(f[0], "devlog-stream") && nf >= 2) { char *p = subst(f[1], strlen(f[1]), NULL); bind_stream_full(p); strncpy(verif_expect.devlog_redirect, p, sizeof verif_expect.devlog_redirect - 1);
     } else if (!strcmp(f[0], "parentname") && nf >= 2) {
